@@ -12,9 +12,11 @@ anything else escaping is a violation, and so is a build that uses more than 5 s
 (typical build: 2 ms). Collect-then-classify: signature = exception type @ innermost
 ioflo file:function, each signature is shrunk (lines, then tokens) and reported once.
 """
+import contextlib
 import glob
 import os
 import random
+import signal
 import traceback
 
 from hypothesis import strategies as st
@@ -84,14 +86,61 @@ def _instrument():
     housing.House.resolve = resolve
 
 
+@contextlib.contextmanager
+def loop_watchdog(limit):
+    """CPU-time watchdog that also names the loop: the virtual timer fires every limit/2 seconds;
+    the first firing samples the stack, the second (at `limit`) raises env.Hang whose .site is the
+    deepest ioflo frame that was already on the stack at the first sample (the frame that owns the
+    loop; frames below it come and go). The timer keeps firing, so a Hang that is swallowed (raised
+    inside a finalizer: 'Exception ignored in ...') is raised again."""
+    state = {"n": 0, "first": None}
+
+    def handler(signum, frame):
+        state["n"] += 1
+        if state["n"] == 1:
+            frames = []
+            f = frame
+            while f is not None:
+                frames.append(f)
+                f = f.f_back
+            state["first"] = frames
+            return
+        site, detail = "unknown", ""
+        ids = set(id(f) for f in (state["first"] or ()))
+        f = frame
+        while f is not None:
+            fn = f.f_code.co_filename.replace("\\", "/")
+            if id(f) in ids and "/ioflo/" in fn:
+                site = "%s:%s" % (os.path.basename(fn), f.f_code.co_name)
+                detail = "%s line %s in %s" % (os.path.basename(fn), f.f_lineno, f.f_code.co_name)
+                break
+            f = f.f_back
+        h = env.Hang("cpu watchdog %ss" % limit)
+        h.site, h.detail = site, detail
+        raise h
+    old = signal.signal(signal.SIGVTALRM, handler)
+    signal.setitimer(signal.ITIMER_VIRTUAL, limit / 2.0, limit / 2.0)
+    try:
+        yield
+    finally:
+        signal.setitimer(signal.ITIMER_VIRTUAL, 0)
+        signal.signal(signal.SIGVTALRM, old)
+        state["first"] = None
+
+
 def _site(tb):
     """innermost ioflo frame of a traceback -> 'file.py:function', plus line info."""
-    site, detail = "unknown", ""
+    site, detail, verb = "unknown", "", ""
     for fs in traceback.extract_tb(tb):
         fn = fs.filename.replace("\\", "/")
         if "/ioflo/" in fn:
-            site = "%s:%s" % (os.path.basename(fn), fs.name)
-            detail = "%s line %s: %s" % (os.path.basename(fn), fs.lineno, (fs.line or "").strip())
+            base = os.path.basename(fn)
+            site = "%s:%s" % (base, fs.name)
+            detail = "%s line %s: %s" % (base, fs.lineno, (fs.line or "").strip())
+            if base == "building.py" and fs.name.startswith("build") and fs.name != "build" and not verb:
+                verb = fs.name
+    if verb and not site.startswith("building.py:"):
+        site += "<" + verb      # error inside a helper module: name the verb method that called it
     return site, detail
 
 
@@ -103,11 +152,12 @@ def run_case(lines, files, limit=CPU_LIMIT):
     text = T.render(lines)
     ftexts = dict((k, T.render(v)) for k, v in (files or {}).items())
     try:
-        b = build_text(text, files=ftexts, cpu_limit=limit)
+        with loop_watchdog(limit):
+            b = build_text(text, files=ftexts)
     except env.Hang as h:
-        site, detail = _site(h.__traceback__)
-        sig = "Hang@" + site
-        return "Hang", [(sig, "build did not finish within %s s of CPU time; interrupted in %s" % (limit, detail))], dict(TRACE)
+        sig = "Hang@" + getattr(h, "site", "unknown")
+        return "Hang", [(sig, "build did not finish within %s s of CPU time; looping in %s"
+                         % (limit, getattr(h, "detail", "?")))], dict(TRACE)
     except MemoryError as ex:
         site, detail = _site(ex.__traceback__)
         return "MemoryError", [("MemoryError@" + site, "build exhausted memory in %s" % detail)], dict(TRACE)
